@@ -224,7 +224,8 @@ class Evidence:
             "wall_s": round(time.time() - self.t0, 3),
             "violations": len(findings.violations),
         }
-        d = os.path.join(ROOT, "evidence")
+        # evidence of runs against another checkout (VERIF_REPO, mutation demos) never replaces the real evidence
+        d = os.path.join(ROOT, "evidence") if build.REPO == "/repo" else os.path.join(build.BUILD, "evidence" + build._tag())
         os.makedirs(d, exist_ok=True)
         path = os.path.join(d, "%s.json" % self.prop)
         try:
